@@ -300,6 +300,8 @@ JUSTIFIED_X2 = [
      "the only caller tested `'type' in schema` (or substituted the key in _parse_multi_typed)", None),
     ("Object.__repr__", lambda t: t.startswith("getattr(self, attr)"), "AttributeError",
      "Object.__init__ sets every declared property", _cond_object_init_sets_all),
+    ("SchemaParseError.invalid_type", lambda t: t == "{value}", "ValueError",
+     "only raised for a `type` keyword that is neither a string nor a list, which is not metaschema-valid", None),
 ]
 
 ALLOWED_PARSE = ("SchemaParseError",)
